@@ -154,7 +154,8 @@ impl TreeGen {
                     forb.extend(forbidden.iter().cloned());
                     // siblings generated later are checked against visible(out) which includes this branch's names
                 }
-                let sub = self.gen_children(rng, depth + 1, &forb);
+                // now and then a branch that has no children yet (a subsystem stub): nothing resolves on or below it
+                let sub = if self.unambiguous && !is_default && rng.chance(1, 25) { vec![] } else { self.gen_children(rng, depth + 1, &forb) };
                 out.push(Spec { name, default: is_default, kind: SpecKind::Branch(sub) });
             } else {
                 let h = self.next_handler;
@@ -178,6 +179,12 @@ impl TreeGen {
             g.max_fanout = 1 + rng.usize(3);
         }
         let mut root = g.gen_children(rng, 0, &[]);
+        if g.next_handler == 0 {
+            // only stubs so far: a tree needs at least one command
+            let h = g.next_handler;
+            g.next_handler += 1;
+            root.push(Spec::leaf(b"ZQ", false, h));
+        }
         let ncommon = rng.usize(4);
         for i in 0..ncommon {
             let names: [&[u8]; 4] = [b"*IDN", b"*RST", b"*OPC", b"*TST"];
